@@ -20,6 +20,8 @@ package endpoint
 //@ ghost var dlvTyp map
 //@ ghost var dlvVal map
 //@ ghost var dlvTo map
+// availCnt[p] = number of NotifyAvailable calls on port p so far (C10's file; its NotifyAvailable contract is reused)
+//@ ghost var availCnt map
 
 //@ pred epWF(m) = m.comp != nil && m.comp.TickingComponent != nil && m.comp.TickingComponent.PortOwnerBase != nil && ("NetworkPort" in m.comp.TickingComponent.PortOwnerBase.ports)
 
@@ -86,10 +88,15 @@ package endpoint
 //@ pred deliveredMeta(m, n, i) = hastype(dlvMsg(n), "packetization.AssembledMsg") && as(dlvMsg(n), "packetization.AssembledMsg").MsgMeta.ID == old(m.comp.State.AssembledMsgs[i].ID) && as(dlvMsg(n), "packetization.AssembledMsg").MsgMeta.Src == old(m.comp.State.AssembledMsgs[i].Src) && as(dlvMsg(n), "packetization.AssembledMsg").MsgMeta.Dst == old(m.comp.State.AssembledMsgs[i].Dst) && as(dlvMsg(n), "packetization.AssembledMsg").MsgMeta.RspTo == old(m.comp.State.AssembledMsgs[i].RspTo) && as(dlvMsg(n), "packetization.AssembledMsg").MsgMeta.TrafficClass == old(m.comp.State.AssembledMsgs[i].TrafficClass) && as(dlvMsg(n), "packetization.AssembledMsg").MsgMeta.TrafficBytes == old(m.comp.State.AssembledMsgs[i].TrafficBytes)
 //@ pred dlvLogKept() = forall n int :: n < old(dlvN) ==> dlvTyp[n] == old(dlvTyp)[n] && dlvVal[n] == old(dlvVal)[n] && dlvTo[n] == old(dlvTo)[n]
 
+// devicePorts[t] is the first device port whose name (rob.portRemote: the value AsRemote() returns, see the trusted
+// contract of messaging.Port.AsRemote in /verif/contracts/mem/rob/zz_contracts_C21_verif.go) is dst
+//@ pred firstNamed(m, t, dst) = rob.portRemote(m.devicePorts[t]) == dst && (forall j in 0..t :: rob.portRemote(m.devicePorts[j]) != dst)
+
 //@ fn (*incomingMW).tryDeliver
 //@   property C31
 //@   requires epWF(m)
 //@   panics any
+//@   witness stopAt int = jj
 //@   label C31.deliver.count
 //@   ensures 0 <= dlvK() && dlvK() <= old(len(m.comp.State.AssembledMsgs))
 //@   label C31.deliver.pop
@@ -98,8 +105,14 @@ package endpoint
 //@   ensures forall n in 0..dlvK() :: deliveredMeta(m, old(dlvN) + n, n)
 //@   label C31.deliver.target
 //@   ensures forall n in 0..dlvK() :: 0 <= tgt[n] && tgt[n] < len(m.devicePorts) && dlvTo[old(dlvN) + n] == ifaceval(m.devicePorts[tgt[n]])
+//@   label C31.deliver.named
+//@   ensures forall n in 0..dlvK() :: firstNamed(m, tgt[n], old(m.comp.State.AssembledMsgs[n].Dst))
+//@   label C31.deliver.stop
+//@   ensures dlvK() < old(len(m.comp.State.AssembledMsgs)) ==> 0 <= stopAt && stopAt < len(m.devicePorts) && !canDlv[ifaceval(m.devicePorts[stopAt])] && firstNamed(m, stopAt, old(m.comp.State.AssembledMsgs[dlvK()].Dst))
 //@   label C31.deliver.log
 //@   ensures dlvLogKept()
+//@   label C31.deliver.others
+//@   ensures forall p int :: (forall n in 0..dlvK() :: dlvTo[old(dlvN) + n] != p) ==> (canDlv[p] <==> old(canDlv)[p]) && inTyp[p] == old(inTyp)[p] && inVal[p] == old(inVal)[p]
 //@   label C31.deliver.progress
 //@   ensures result <==> dlvK() > 0
 //@   assigns m.comp.State.AssembledMsgs, canDlv, dlvN, dlvTyp, dlvVal, dlvTo, inTyp, inVal
@@ -109,7 +122,200 @@ package endpoint
 //@   loop 0: invariant ref(m.comp.State.AssembledMsgs) == old(ref(m.comp.State.AssembledMsgs)) && off(m.comp.State.AssembledMsgs) == old(off(m.comp.State.AssembledMsgs)) && len(m.comp.State.AssembledMsgs) == old(len(m.comp.State.AssembledMsgs))
 //@   loop 0: invariant forall n in 0..i :: deliveredMeta(m, old(dlvN) + n, n)
 //@   loop 0: invariant forall n in 0..i :: 0 <= tgt[n] && tgt[n] < len(m.devicePorts) && dlvTo[old(dlvN) + n] == ifaceval(m.devicePorts[tgt[n]])
+//@   loop 0: invariant forall n in 0..i :: firstNamed(m, tgt[n], old(m.comp.State.AssembledMsgs[n].Dst))
 //@   loop 0: invariant dlvLogKept()
+//@   loop 0: invariant forall p int :: (forall n in 0..i :: dlvTo[old(dlvN) + n] != p) ==> (canDlv[p] <==> old(canDlv)[p]) && inTyp[p] == old(inTyp)[p] && inVal[p] == old(inVal)[p]
 //@   loop 1: ghost jj = 0
 //@   loop 1: backedge jj = jj + 1
 //@   loop 1: invariant dstPort == nil && jj == rangeindex + 1 && -1 <= rangeindex && rangeindex < len(m.devicePorts)
+//@   loop 1: invariant forall j in 0..rangeindex + 1 :: rob.portRemote(m.devicePorts[j]) != dst
+
+// ---- recv ----
+//@ fn (*incomingMW).logFlitE2ETaskFromFlit
+//@   property C31
+//@   requires epWF(m)
+//@   assigns nothing
+
+// tracing.StartTask only notifies hooks (user callbacks); same trust as tracing.EndTask / AddMilestone (C19's, C21's files).
+//@ ext tracing.StartTask(domain, start)
+//@   trusted
+//@   assigns nothing
+
+// recv retrieves k flits from the network port. Witnesses (step n = the n-th flit retrieved by this call, 0 <= n < k):
+//   fT/fV[n]  the flit (interface value) retrieved in step n;  pos[n]  index of the assembling entry charged with it
+//   cum[n][j] number of steps before n that charged entry j;   mk[j]   the step that created entry j (new entries only)
+//@ func netP(m) = ifaceval(m.comp.TickingComponent.PortOwnerBase.ports["NetworkPort"])
+//@ func recvK(m) = retrCnt[netP(m)] - old(retrCnt)[netP(m)]
+//@ func flitAt(fT, fV, n) = as(mkiface(fT[n], fV[n]), "packetization.Flit")
+//@ pred asmCountsOK(m) = forall j in 0..len(m.comp.State.AssemblingMsgs) :: 0 <= m.comp.State.AssemblingMsgs[j].NumFlitArrived && m.comp.State.AssemblingMsgs[j].NumFlitArrived < 1<<62
+//@ pred asmDistinct(m) = forall a in 0..len(m.comp.State.AssemblingMsgs) :: forall b in 0..len(m.comp.State.AssemblingMsgs) :: a != b ==> m.comp.State.AssemblingMsgs[a].MsgID != m.comp.State.AssemblingMsgs[b].MsgID
+//@ pred sameIdentity(m, i, j) = m.comp.State.AssemblingMsgs[i].MsgID == old(m.comp.State.AssemblingMsgs[j].MsgID) && m.comp.State.AssemblingMsgs[i].MsgTaskID == old(m.comp.State.AssemblingMsgs[j].MsgTaskID) && m.comp.State.AssemblingMsgs[i].Src == old(m.comp.State.AssemblingMsgs[j].Src) && m.comp.State.AssemblingMsgs[i].Dst == old(m.comp.State.AssemblingMsgs[j].Dst) && m.comp.State.AssemblingMsgs[i].RspTo == old(m.comp.State.AssemblingMsgs[j].RspTo) && m.comp.State.AssemblingMsgs[i].TrafficClass == old(m.comp.State.AssemblingMsgs[j].TrafficClass) && m.comp.State.AssemblingMsgs[i].TrafficBytes == old(m.comp.State.AssemblingMsgs[j].TrafficBytes) && m.comp.State.AssemblingMsgs[i].NumFlitRequired == old(m.comp.State.AssemblingMsgs[j].NumFlitRequired)
+//@ pred createdFrom(m, j, fT, fV, n) = m.comp.State.AssemblingMsgs[j].MsgID == flitAt(fT, fV, n).Msg.ID && m.comp.State.AssemblingMsgs[j].MsgTaskID == flitAt(fT, fV, n).MsgTaskID && m.comp.State.AssemblingMsgs[j].Src == flitAt(fT, fV, n).Msg.Src && m.comp.State.AssemblingMsgs[j].Dst == flitAt(fT, fV, n).Msg.Dst && m.comp.State.AssemblingMsgs[j].RspTo == flitAt(fT, fV, n).Msg.RspTo && m.comp.State.AssemblingMsgs[j].TrafficClass == flitAt(fT, fV, n).Msg.TrafficClass && m.comp.State.AssemblingMsgs[j].TrafficBytes == flitAt(fT, fV, n).Msg.TrafficBytes && m.comp.State.AssemblingMsgs[j].NumFlitRequired == flitAt(fT, fV, n).NumFlitInMsg
+// (the engine has no literal for a two-level map: the ghost starts from the never-assigned ghost global c31Base2 and counts
+// are read relative to row 0: cnt(cum, n, j) = cum[n][j] - cum[0][j])
+//@ ghost var c31Base2 map2
+//@ func cnt(cum, n, j) = cum[n][j] - cum[0][j]
+//@ pred cumOK(cum, pos, k) = forall n in 0..k :: cum[n + 1] == upd(cum[n], pos[n], cum[n][pos[n]] + 1)
+
+//@ fn (*incomingMW).recv
+//@   property C31
+//@   requires epWF(m) && asmCountsOK(m) && m.comp.spec.NumInputChannels < 1<<61
+//@   panics any
+//@   label C31.recv.count
+//@   ensures 0 <= recvK(m) && recvK(m) <= max(0, m.comp.spec.NumInputChannels) && (result <==> recvK(m) > 0)
+//@   label C31.recv.port
+//@   ensures retrCnt == upd(old(retrCnt), netP(m), retrCnt[netP(m)]) && (forall p int :: p != netP(m) ==> inTyp[p] == old(inTyp)[p] && inVal[p] == old(inVal)[p])
+//@   label C31.recv.first
+//@   ensures recvK(m) > 0 ==> fT[0] == old(inTyp)[netP(m)] && fV[0] == old(inVal)[netP(m)]
+//@   label C31.recv.flits
+//@   ensures forall n in 0..recvK(m) :: hastype(mkiface(fT[n], fV[n]), "packetization.Flit")
+//@   label C31.recv.grow
+//@   ensures len(m.comp.State.AssemblingMsgs) >= old(len(m.comp.State.AssemblingMsgs)) && (forall j in 0..old(len(m.comp.State.AssemblingMsgs)) :: sameIdentity(m, j, j))
+//@   label C31.recv.charged
+//@   ensures forall n in 0..recvK(m) :: 0 <= pos[n] && pos[n] < len(m.comp.State.AssemblingMsgs) && m.comp.State.AssemblingMsgs[pos[n]].MsgID == flitAt(fT, fV, n).Msg.ID
+//@   label C31.recv.cum
+//@   ensures cumOK(cum, pos, recvK(m))
+//@   label C31.recv.arrived
+//@   ensures forall j in 0..len(m.comp.State.AssemblingMsgs) :: m.comp.State.AssemblingMsgs[j].NumFlitArrived == (j < old(len(m.comp.State.AssemblingMsgs)) ? old(m.comp.State.AssemblingMsgs[j].NumFlitArrived) : 0) + cnt(cum, recvK(m), j)
+//@   label C31.recv.created
+//@   ensures forall j in old(len(m.comp.State.AssemblingMsgs))..len(m.comp.State.AssemblingMsgs) :: 0 <= mk[j] && mk[j] < recvK(m) && pos[mk[j]] == j && createdFrom(m, j, fT, fV, mk[j])
+//@   assigns m.comp.State.AssemblingMsgs, elems(m.comp.State.AssemblingMsgs), inTyp, inVal, retrCnt
+//@   loop 0: ghost fT = mapof(j, 0)
+//@   loop 0: backedge fT = upd(fT, athead(i), typeid(receivedI))
+//@   loop 0: ghost fV = mapof(j, 0)
+//@   loop 0: backedge fV = upd(fV, athead(i), ifaceval(receivedI))
+//@   loop 0: ghost pos = mapof(j, 0)
+//@   loop 0: backedge pos = upd(pos, athead(i), assemblingIdx < 0 ? len(m.comp.State.AssemblingMsgs) - 1 : assemblingIdx)
+//@   loop 0: ghost mk = mapof(j, 0)
+//@   loop 0: backedge mk = assemblingIdx < 0 ? upd(mk, len(m.comp.State.AssemblingMsgs) - 1, athead(i)) : mk
+//@   loop 0: ghost cum = c31Base2
+//@   loop 0: backedge cum = upd(cum, athead(i) + 1, upd(cum[athead(i)], (assemblingIdx < 0 ? len(m.comp.State.AssemblingMsgs) - 1 : assemblingIdx), cum[athead(i)][(assemblingIdx < 0 ? len(m.comp.State.AssemblingMsgs) - 1 : assemblingIdx)] + 1))
+//@   loop 0: invariant 0 <= i && i <= max(0, m.comp.spec.NumInputChannels) && (madeProgress <==> i > 0) && epWF(m)
+//@   loop 0: invariant retrCnt == upd(old(retrCnt), netP(m), old(retrCnt)[netP(m)] + i) && (forall p int :: p != netP(m) ==> inTyp[p] == old(inTyp)[p] && inVal[p] == old(inVal)[p])
+//@   loop 0: invariant i == 0 ==> inTyp[netP(m)] == old(inTyp)[netP(m)] && inVal[netP(m)] == old(inVal)[netP(m)]
+//@   loop 0: invariant i > 0 ==> fT[0] == old(inTyp)[netP(m)] && fV[0] == old(inVal)[netP(m)]
+//@   loop 0: invariant forall n in 0..i :: hastype(mkiface(fT[n], fV[n]), "packetization.Flit")
+//@   loop 0: invariant (ref(m.comp.State.AssemblingMsgs) == old(ref(m.comp.State.AssemblingMsgs)) && off(m.comp.State.AssemblingMsgs) == old(off(m.comp.State.AssemblingMsgs))) || fresh(m.comp.State.AssemblingMsgs)
+//@   loop 0: invariant len(m.comp.State.AssemblingMsgs) >= old(len(m.comp.State.AssemblingMsgs)) && len(m.comp.State.AssemblingMsgs) <= old(len(m.comp.State.AssemblingMsgs)) + i
+//@   loop 0: invariant forall j in 0..old(len(m.comp.State.AssemblingMsgs)) :: sameIdentity(m, j, j)
+//@   loop 0: invariant forall n in 0..i :: 0 <= pos[n] && pos[n] < len(m.comp.State.AssemblingMsgs) && m.comp.State.AssemblingMsgs[pos[n]].MsgID == flitAt(fT, fV, n).Msg.ID
+//@   loop 0: invariant cumOK(cum, pos, i)
+//@   loop 0: invariant forall j int :: 0 <= cnt(cum, i, j) && cnt(cum, i, j) <= i
+//@   loop 0: invariant forall j in 0..len(m.comp.State.AssemblingMsgs) :: m.comp.State.AssemblingMsgs[j].NumFlitArrived == (j < old(len(m.comp.State.AssemblingMsgs)) ? old(m.comp.State.AssemblingMsgs[j].NumFlitArrived) : 0) + cnt(cum, i, j)
+//@   loop 0: invariant forall j in old(len(m.comp.State.AssemblingMsgs))..len(m.comp.State.AssemblingMsgs) :: 0 <= mk[j] && mk[j] < i && pos[mk[j]] == j && createdFrom(m, j, fT, fV, mk[j])
+//@   loop 1: invariant assemblingIdx == -1 && -1 <= rangeindex && rangeindex < len(m.comp.State.AssemblingMsgs)
+
+// ================= outgoing side =================
+// math.Ceil is a pure function of its argument; floating point values are opaque tokens in the engine, so nothing is assumed
+// about the value (see the assumption recorded at msgMetaToFlits).
+//@ ext math.Ceil(x)
+//@   trusted
+//@   pure
+
+//@ pred idGenOK() = timing.idGeneratorInstantiated ==> timing.idGenerator != nil
+//@ pred issuedGrows() = forall k int :: old(issued)[k] ==> issued[k]
+
+// msgMetaToFlits. The encoded size enc = TrafficBytes + int(math.Ceil(float64(TrafficBytes) * EncodingOverhead)) is computed in
+// floating point; float arithmetic and the float->int conversion are UNINTERPRETED in the engine and the spec language cannot
+// name their results (nor the local `trafficByte` at a return), so the clause "number of flits = ceil(enc / FlitByteSize) >= 1"
+// is NOT decided for a non-empty payload: it is exactly one flit for an empty payload (C31.flits.empty), and for a non-empty
+// one only the integer core is proved, as the lemma flitCountFormula below (not bound to the code by the engine). Everything
+// else is stated relative to the count the code finally computes, len(result). ASSUMPTION recorded: enc >= 1 (true for every
+// EncodingOverhead >= 0 short of overflow; a negative overhead below -1 gives enc <= 0, i.e. zero flits or a makeslice panic).
+//@ lemma flitCountFormula(enc, fbs, n)
+//@   property C31
+//@   requires enc >= 1 && fbs > 0 && n == (enc - 1) / fbs + 1
+//@   label C31.lemma.flitcount
+//@   ensures n >= 1 && (n - 1) * fbs < enc && enc <= n * fbs
+//@ pred carriesMsg(f, meta) = f.Msg.ID == meta.ID && f.Msg.Src == meta.Src && f.Msg.Dst == meta.Dst && f.Msg.RspTo == meta.RspTo && f.Msg.TrafficClass == meta.TrafficClass && f.Msg.TrafficBytes == meta.TrafficBytes
+//@ fn msgMetaToFlits
+//@   property C31
+//@   requires idGenOK() && spec.FlitByteSize > 0
+//@   panics any
+//@   label C31.flits.empty
+//@   ensures meta.TrafficBytes <= 0 ==> len(result) == 1
+//@   label C31.flits.seq
+//@   ensures forall i in 0..len(result) :: result[i].SeqID == i && result[i].NumFlitInMsg == len(result)
+//@   label C31.flits.carry
+//@   ensures forall i in 0..len(result) :: carriesMsg(result[i], meta) && result[i].MsgTaskID == msgTaskID
+//@   label C31.flits.route
+//@   ensures forall i in 0..len(result) :: result[i].MsgMeta.Src == networkPortRemote && result[i].MsgMeta.Dst == defaultSwitchDst
+//@   label C31.flits.fresh
+//@   ensures fresh(result) && cap(result) == len(result)
+//@   label C31.flits.idgen
+//@   ensures idGenOK() && issuedGrows()
+//@   assigns issued, key("G|github.com/sarchlab/akita/v5/timing.idGenerator|"), key("G|github.com/sarchlab/akita/v5/timing.idGeneratorInstantiated|"), key("O|timing.sequentialIDGenerator|nextID"), key("O|timing.parallelIDGenerator|nextID")
+//@   loop 0: invariant 0 <= i && i <= numFlit && len(flits) == numFlit && cap(flits) == numFlit && fresh(flits) && idGenOK() && issuedGrows()
+//@   loop 0: invariant forall j in 0..i :: flits[j].SeqID == j && flits[j].NumFlitInMsg == numFlit && carriesMsg(flits[j], meta) && flits[j].MsgTaskID == msgTaskID && flits[j].MsgMeta.Src == networkPortRemote && flits[j].MsgMeta.Dst == defaultSwitchDst
+
+//@ fn (*outgoingMW).networkPort
+//@   property C31
+//@   requires epWF(m)
+//@   label C31.out.netport
+//@   ensures result == m.comp.TickingComponent.PortOwnerBase.ports["NetworkPort"]
+//@   assigns nothing
+//@ fn (*outgoingMW).logMsgE2EStart
+//@   property C31
+//@   requires epWF(m)
+//@   assigns nothing
+//@ fn (*outgoingMW).logFlitE2ETask
+//@   property C31
+//@   requires epWF(m) && meta != nil
+//@   assigns nothing
+
+// flit p of the send buffer now == flit q of the send buffer on entry (all fifteen scalar fields)
+//@ pred sameFlit(m, p, q) = m.comp.State.FlitsToSend[p].MsgMeta.ID == old(m.comp.State.FlitsToSend[q].MsgMeta.ID) && m.comp.State.FlitsToSend[p].MsgMeta.Src == old(m.comp.State.FlitsToSend[q].MsgMeta.Src) && m.comp.State.FlitsToSend[p].MsgMeta.Dst == old(m.comp.State.FlitsToSend[q].MsgMeta.Dst) && m.comp.State.FlitsToSend[p].MsgMeta.TrafficClass == old(m.comp.State.FlitsToSend[q].MsgMeta.TrafficClass) && m.comp.State.FlitsToSend[p].MsgMeta.TrafficBytes == old(m.comp.State.FlitsToSend[q].MsgMeta.TrafficBytes) && m.comp.State.FlitsToSend[p].MsgMeta.RspTo == old(m.comp.State.FlitsToSend[q].MsgMeta.RspTo) && m.comp.State.FlitsToSend[p].SeqID == old(m.comp.State.FlitsToSend[q].SeqID) && m.comp.State.FlitsToSend[p].NumFlitInMsg == old(m.comp.State.FlitsToSend[q].NumFlitInMsg) && m.comp.State.FlitsToSend[p].Msg.ID == old(m.comp.State.FlitsToSend[q].Msg.ID) && m.comp.State.FlitsToSend[p].Msg.Src == old(m.comp.State.FlitsToSend[q].Msg.Src) && m.comp.State.FlitsToSend[p].Msg.Dst == old(m.comp.State.FlitsToSend[q].Msg.Dst) && m.comp.State.FlitsToSend[p].Msg.TrafficClass == old(m.comp.State.FlitsToSend[q].Msg.TrafficClass) && m.comp.State.FlitsToSend[p].Msg.TrafficBytes == old(m.comp.State.FlitsToSend[q].Msg.TrafficBytes) && m.comp.State.FlitsToSend[p].Msg.RspTo == old(m.comp.State.FlitsToSend[q].Msg.RspTo) && m.comp.State.FlitsToSend[p].MsgTaskID == old(m.comp.State.FlitsToSend[q].MsgTaskID)
+// the message carried by flit p is entry c of the message buffer on entry
+//@ pred carriesBuf(m, p, c) = m.comp.State.FlitsToSend[p].Msg.ID == old(m.comp.State.MsgOutBuf[c].ID) && m.comp.State.FlitsToSend[p].Msg.Src == old(m.comp.State.MsgOutBuf[c].Src) && m.comp.State.FlitsToSend[p].Msg.Dst == old(m.comp.State.MsgOutBuf[c].Dst) && m.comp.State.FlitsToSend[p].Msg.RspTo == old(m.comp.State.MsgOutBuf[c].RspTo) && m.comp.State.FlitsToSend[p].Msg.TrafficClass == old(m.comp.State.MsgOutBuf[c].TrafficClass) && m.comp.State.FlitsToSend[p].Msg.TrafficBytes == old(m.comp.State.MsgOutBuf[c].TrafficBytes)
+
+// ---- prepareFlits: converts a prefix of the message buffer, in order; message c becomes the contiguous run of flits
+// [start[c], start[c+1]) appended to the send buffer, numbered 0.. in order, each carrying message c's metadata ----
+//@ const maxFlits = 64
+//@ func prepK(m) = old(len(m.comp.State.MsgOutBuf)) - len(m.comp.State.MsgOutBuf)
+//@ fn (*outgoingMW).prepareFlits
+//@   property C31
+//@   requires epWF(m) && idGenOK() && m.comp.spec.FlitByteSize > 0
+//@   panics any
+//@   witness start map = st
+//@   label C31.prepare.pop
+//@   ensures 0 <= prepK(m) && prepK(m) <= old(len(m.comp.State.MsgOutBuf)) && ref(m.comp.State.MsgOutBuf) == old(ref(m.comp.State.MsgOutBuf)) && off(m.comp.State.MsgOutBuf) == old(off(m.comp.State.MsgOutBuf)) + prepK(m) && (result <==> prepK(m) > 0)
+//@   label C31.prepare.runs
+//@   ensures start[0] == old(len(m.comp.State.FlitsToSend)) && start[prepK(m)] == len(m.comp.State.FlitsToSend) && (forall c in 0..prepK(m) :: start[c] <= start[c + 1] && start[c] < maxFlits)
+//@   label C31.prepare.stop
+//@   ensures len(m.comp.State.MsgOutBuf) == 0 || len(m.comp.State.FlitsToSend) >= maxFlits
+//@   label C31.prepare.kept
+//@   ensures forall p in 0..old(len(m.comp.State.FlitsToSend)) :: sameFlit(m, p, p)
+//@   label C31.prepare.flits
+//@   ensures forall c in 0..prepK(m) :: forall p in start[c]..start[c + 1] :: m.comp.State.FlitsToSend[p].SeqID == p - start[c] && m.comp.State.FlitsToSend[p].NumFlitInMsg == start[c + 1] - start[c] && carriesBuf(m, p, c)
+//@   label C31.prepare.idgen
+//@   ensures idGenOK() && issuedGrows()
+//@   assigns m.comp.State.MsgOutBuf, m.comp.State.FlitsToSend, elems(m.comp.State.FlitsToSend), issued, key("G|github.com/sarchlab/akita/v5/timing.idGenerator|"), key("G|github.com/sarchlab/akita/v5/timing.idGeneratorInstantiated|"), key("O|timing.sequentialIDGenerator|nextID"), key("O|timing.parallelIDGenerator|nextID")
+//@   loop 0: ghost st = mapof(j, len(m.comp.State.FlitsToSend))
+//@   loop 0: backedge st = upd(st, old(len(m.comp.State.MsgOutBuf)) - len(m.comp.State.MsgOutBuf), len(m.comp.State.FlitsToSend))
+//@   loop 0: invariant epWF(m) && idGenOK() && issuedGrows() && 0 <= prepK(m) && prepK(m) <= old(len(m.comp.State.MsgOutBuf)) && ref(m.comp.State.MsgOutBuf) == old(ref(m.comp.State.MsgOutBuf)) && off(m.comp.State.MsgOutBuf) == old(off(m.comp.State.MsgOutBuf)) + prepK(m) && (madeProgress <==> prepK(m) > 0)
+//@   loop 0: invariant st[0] == old(len(m.comp.State.FlitsToSend)) && st[prepK(m)] == len(m.comp.State.FlitsToSend) && (forall c in 0..prepK(m) :: st[c] <= st[c + 1] && st[c] < maxFlits)
+//@   loop 0: invariant (ref(m.comp.State.FlitsToSend) == old(ref(m.comp.State.FlitsToSend)) && off(m.comp.State.FlitsToSend) == old(off(m.comp.State.FlitsToSend))) || fresh(m.comp.State.FlitsToSend)
+//@   loop 0: invariant forall p in 0..old(len(m.comp.State.FlitsToSend)) :: m.comp.State.FlitsToSend[p].MsgMeta.ID == old(m.comp.State.FlitsToSend[p].MsgMeta.ID)
+//@   loop 0: invariant forall p in 0..old(len(m.comp.State.FlitsToSend)) :: m.comp.State.FlitsToSend[p].MsgMeta.Src == old(m.comp.State.FlitsToSend[p].MsgMeta.Src)
+//@   loop 0: invariant forall p in 0..old(len(m.comp.State.FlitsToSend)) :: m.comp.State.FlitsToSend[p].MsgMeta.Dst == old(m.comp.State.FlitsToSend[p].MsgMeta.Dst)
+//@   loop 0: invariant forall p in 0..old(len(m.comp.State.FlitsToSend)) :: m.comp.State.FlitsToSend[p].MsgMeta.TrafficClass == old(m.comp.State.FlitsToSend[p].MsgMeta.TrafficClass)
+//@   loop 0: invariant forall p in 0..old(len(m.comp.State.FlitsToSend)) :: m.comp.State.FlitsToSend[p].MsgMeta.TrafficBytes == old(m.comp.State.FlitsToSend[p].MsgMeta.TrafficBytes)
+//@   loop 0: invariant forall p in 0..old(len(m.comp.State.FlitsToSend)) :: m.comp.State.FlitsToSend[p].MsgMeta.RspTo == old(m.comp.State.FlitsToSend[p].MsgMeta.RspTo)
+//@   loop 0: invariant forall p in 0..old(len(m.comp.State.FlitsToSend)) :: m.comp.State.FlitsToSend[p].SeqID == old(m.comp.State.FlitsToSend[p].SeqID)
+//@   loop 0: invariant forall p in 0..old(len(m.comp.State.FlitsToSend)) :: m.comp.State.FlitsToSend[p].NumFlitInMsg == old(m.comp.State.FlitsToSend[p].NumFlitInMsg)
+//@   loop 0: invariant forall p in 0..old(len(m.comp.State.FlitsToSend)) :: m.comp.State.FlitsToSend[p].Msg.ID == old(m.comp.State.FlitsToSend[p].Msg.ID)
+//@   loop 0: invariant forall p in 0..old(len(m.comp.State.FlitsToSend)) :: m.comp.State.FlitsToSend[p].Msg.Src == old(m.comp.State.FlitsToSend[p].Msg.Src)
+//@   loop 0: invariant forall p in 0..old(len(m.comp.State.FlitsToSend)) :: m.comp.State.FlitsToSend[p].Msg.Dst == old(m.comp.State.FlitsToSend[p].Msg.Dst)
+//@   loop 0: invariant forall p in 0..old(len(m.comp.State.FlitsToSend)) :: m.comp.State.FlitsToSend[p].Msg.TrafficClass == old(m.comp.State.FlitsToSend[p].Msg.TrafficClass)
+//@   loop 0: invariant forall p in 0..old(len(m.comp.State.FlitsToSend)) :: m.comp.State.FlitsToSend[p].Msg.TrafficBytes == old(m.comp.State.FlitsToSend[p].Msg.TrafficBytes)
+//@   loop 0: invariant forall p in 0..old(len(m.comp.State.FlitsToSend)) :: m.comp.State.FlitsToSend[p].Msg.RspTo == old(m.comp.State.FlitsToSend[p].Msg.RspTo)
+//@   loop 0: invariant forall p in 0..old(len(m.comp.State.FlitsToSend)) :: m.comp.State.FlitsToSend[p].MsgTaskID == old(m.comp.State.FlitsToSend[p].MsgTaskID)
+//@   loop 0: invariant forall c in 0..prepK(m) :: forall p in st[c]..st[c + 1] :: m.comp.State.FlitsToSend[p].SeqID == p - st[c]
+//@   loop 0: invariant forall c in 0..prepK(m) :: forall p in st[c]..st[c + 1] :: m.comp.State.FlitsToSend[p].NumFlitInMsg == st[c + 1] - st[c]
+//@   loop 0: invariant forall c in 0..prepK(m) :: forall p in st[c]..st[c + 1] :: m.comp.State.FlitsToSend[p].Msg.ID == old(m.comp.State.MsgOutBuf[c].ID)
+//@   loop 0: invariant forall c in 0..prepK(m) :: forall p in st[c]..st[c + 1] :: m.comp.State.FlitsToSend[p].Msg.Src == old(m.comp.State.MsgOutBuf[c].Src)
+//@   loop 0: invariant forall c in 0..prepK(m) :: forall p in st[c]..st[c + 1] :: m.comp.State.FlitsToSend[p].Msg.Dst == old(m.comp.State.MsgOutBuf[c].Dst)
+//@   loop 0: invariant forall c in 0..prepK(m) :: forall p in st[c]..st[c + 1] :: m.comp.State.FlitsToSend[p].Msg.RspTo == old(m.comp.State.MsgOutBuf[c].RspTo)
+//@   loop 0: invariant forall c in 0..prepK(m) :: forall p in st[c]..st[c + 1] :: m.comp.State.FlitsToSend[p].Msg.TrafficClass == old(m.comp.State.MsgOutBuf[c].TrafficClass)
+//@   loop 0: invariant forall c in 0..prepK(m) :: forall p in st[c]..st[c + 1] :: m.comp.State.FlitsToSend[p].Msg.TrafficBytes == old(m.comp.State.MsgOutBuf[c].TrafficBytes)
+//@   loop 1: invariant -1 <= rangeindex && rangeindex < len(flits)
